@@ -65,6 +65,7 @@ def parseOpts (s : String) : Option (Options × Fac) :=
 /-! ### struct text -/
 
 def printSlot : SlotVal → String
+  | .val (.bool v) => if v ≥ 2 && v != 255 then "rb:" ++ leHex 1 v else printValue (.bool v)   -- a typedef.Bool other than 0 / 1 / 255
   | .val v => printValue v
   | .time t => s!"t:{t}"
 
@@ -85,6 +86,13 @@ def parseSlot (s : Slot) (txt : String) : Option SlotVal :=
     let r ← stripPrefix? txt "t:"
     let t ← parseIntDec r
     if t > 2 ^ 40 || t < -(2 ^ 40 : Int) then none else some (.time t)
+  | .bool =>
+    if let some r := stripPrefix? txt "rb:" then do
+      let b ← parseHexByte r
+      if b ≥ 2 && b != 255 && r == leHex 1 b then some (.val (.bool b)) else none
+    else do
+      let v ← parseValue txt
+      if shapeOk s (.val v) then some (.val v) else none
   | _ => do
     let v ← parseValue txt
     if shapeOk s (.val v) then some (.val v) else none
